@@ -352,3 +352,220 @@ func ClosureNoCall() *T {
 	_ = f
 	return p
 }
+
+// ---- select, loops whose header is its own latch, joins reached from one branch ----
+
+func SelectTwo(a, b chan *T) chan *T {
+	select {
+	case <-a:
+	case <-b:
+	}
+	return a
+}
+
+func SelectTwoOther(a, b chan *T) chan *T {
+	select {
+	case <-a:
+		return b
+	case <-b:
+		return a
+	}
+}
+
+func SelectOne(a chan *T) chan *T {
+	select {
+	case <-a:
+	}
+	return a
+}
+
+func SelectRecvValue(a, b chan *T) *T {
+	select {
+	case v := <-a:
+		return v
+	case v := <-b:
+		if v == nil {
+			return &T{}
+		}
+		return v
+	}
+}
+
+func LoopSelf(n int) *T {
+	p := &T{}
+	i := 0
+	for {
+		i++
+		if i >= n {
+			break
+		}
+		p = p.Next
+	}
+	return p
+}
+
+func LoopSelfParam(p *T, n int) *T {
+	if p == nil {
+		p = &T{}
+	}
+	for {
+		n--
+		if n < 0 {
+			break
+		}
+		p = p.Next
+	}
+	return p
+}
+
+func LoopTwoBlocks(n int) *T {
+	p := &T{Next: &T{}}
+	for i := 0; i < n; i++ {
+		if p == nil {
+			break
+		}
+		p = p.Next
+	}
+	return p
+}
+
+func Route(p, q, x *T, kind, sub int) *T {
+	if q == nil {
+		q = &T{}
+	}
+	q.V++
+	r := p
+	switch {
+	case kind > 0:
+		if kind > 2 {
+			r = q
+			if sub > 1 {
+				break
+			}
+		}
+		kind++
+	default:
+		r = q
+	}
+	_ = x
+	return r
+}
+
+func Route4(p, q, x, y *T, kind, sub int) *T {
+	if q == nil {
+		q = &T{}
+	}
+	r := p
+	switch {
+	case kind > 0:
+		if kind > 2 {
+			r = q
+			if sub > 1 {
+				break
+			}
+		}
+		kind++
+	default:
+		r = q
+	}
+	_, _ = x, y
+	return r
+}
+
+func TwoJoins(p, q *T, a, b bool) (*T, *T) {
+	if q == nil {
+		q = &T{}
+	}
+	r, s := p, q
+	if a {
+		r = q
+		if b {
+			goto out
+		}
+		s = p
+	}
+	r = q
+out:
+	return r, s
+}
+
+func LoopOneBlock(p *T, n int) *T {
+	if p == nil {
+		p = &T{}
+	}
+	for {
+		p = p.Next
+		n--
+		if n <= 0 {
+			break
+		}
+	}
+	return p
+}
+
+func LoopOneBlockNew(n int) *T {
+	cur := &T{}
+	var prev *T
+	for {
+		prev, cur = cur, prev
+		n--
+		if n <= 0 {
+			break
+		}
+	}
+	return cur
+}
+
+func RouteA(p, q, x *T, kind, sub int) *T {
+	q.V++
+	r := p
+	switch {
+	case kind > 0:
+		if kind > 2 {
+			r = q
+			if sub > 1 {
+				break
+			}
+		}
+		kind++
+	default:
+		r = q
+	}
+	return r
+}
+
+func RouteB(p, q, x, y *T, kind, sub int) *T {
+	q.V++
+	r := p
+	switch {
+	case kind > 0:
+		if kind > 2 {
+			r = q
+			if sub > 1 {
+				break
+			}
+		}
+		kind++
+	default:
+		r = q
+	}
+	return r
+}
+
+func RouteC(p, q *T, kind, sub int) *T {
+	q.V++
+	r := p
+	switch {
+	case kind > 0:
+		if kind > 2 {
+			r = q
+			if sub > 1 {
+				break
+			}
+		}
+		kind++
+	default:
+		r = q
+	}
+	return r
+}
